@@ -33,10 +33,18 @@ def library_programs():
     return out + [('lib2', 'Axi2ClkFSM', 'clock'), ('lib2', 'VitisKernelFSM', 'clock')]
 
 
+def body_programs():
+    """hand-written verilogBody() methods next to a Python clock(): compared with the same machinery (clause of C01)"""
+    return [('lib2', 'MsgSequencer', 'clock')]
+
+
 def _make_lib2(name):
     import py4hw
     import py4hw.emulation.vitiswrapping as VW
     s = _q(py4hw.HWSystem); w = s.wire
+    if name == 'MsgSequencer':
+        import py4hw.logic.protocol.uart.sequencer as SQ
+        return _q(SQ.MsgSequencer, s, 'u', w('ready'), w('valid'), w('v', 8), 'Hello!\n')
     if name == 'Axi2ClkFSM':
         return _q(VW.Axi2ClkFSM, s, 'u', w('active_handshake'), w('clk_target', 16), w('reset_clk_count'), w('clk_count', 16), w('clk_out'), w('load_outs'))
     return _q(VW.VitisKernelFSM, s, 'u', w('ap_start'), w('ap_reset'), w('ap_done'), w('ap_idle'), w('ap_ready'), w('load_outs'), w('all_sent'))
@@ -63,7 +71,7 @@ def build(kind, name, meth):
         sys_, obj = L.make_instance(c, cfg)
         return obj, os.path.join(L.REPO, c.file), name, meth
     if kind == 'lib2':
-        return _make_lib2(name), os.path.join(L.REPO, 'py4hw/emulation/vitiswrapping.py'), name, meth
+        return _make_lib2(name), os.path.join(L.REPO, 'py4hw/logic/protocol/uart/sequencer.py' if name == 'MsgSequencer' else 'py4hw/emulation/vitiswrapping.py'), name, meth
     mod, path = _load_corpus(name, meth)
     import py4hw
     s = _q(py4hw.HWSystem)
@@ -142,17 +150,23 @@ def program_item(kind, name, meth, timeout_s=20, refused_expected=False, **kw):
     H = fin.heap
     # ---- correspondence
     hyps = list(sh.hyps)
+    # only inputs / states on which the Python method itself runs without an exception (index in range, no negative shift ...)
+    hyps += [ir.implies(o.pc, o.goal) for o in ex.obligations]
     vin = {}; vstate = {}
     from py4hw.rtl_generation import getValidVerilogName
     port_of = {}
     for p in list(obj.inPorts) + list(obj.outPorts):
         if p.wire is not None: port_of[id(p.wire)] = (getValidVerilogName(p.name), p in obj.inPorts)
+    alias = {}
+    for lhs_, rhs_ in design.mods[topname].assigns:
+        if lhs_[0] == 'id' and rhs_[0] == 'id' and design.mods[topname].decls.get(rhs_[1], {}).get('kind') == 'reg':
+            alias[lhs_[1]] = rhs_[1]          # output driven by `assign out = r`: the register r is the state
     for wid, sw in sh.wires.items():
         pn, isin = port_of.get(wid, (None, None))
         if pn is None: continue
         cur = sh.state.heap[('w', sw, 'value')]
         if isin: vin[pn] = cur
-        else: vstate['%s.%s' % (topname, pn)] = cur
+        else: vstate['%s.%s' % (topname, alias.get(pn, pn))] = cur
     for f in int_fields:
         fv = sh.state.heap[('f', f)]
         hyps += [ir.ge(fv, 0), ir.le(fv, DOM_HI)]
@@ -180,7 +194,7 @@ def program_item(kind, name, meth, timeout_s=20, refused_expected=False, **kw):
         for wid, sw in sh.wires.items():
             pn, isin = port_of.get(wid, (None, None))
             if pn is None or isin: continue
-            key = '%s.%s' % (topname, pn)
+            key = '%s.%s' % (topname, alias.get(pn, pn))
             pyv = ir.ite(H[('w', sw, 'prep')], H[('w', sw, 'next')], sh.state.heap[('w', sw, 'value')])
             if key not in vnext:
                 R('output[%s]' % pn, 'refuted', model={}, replay={'reproduced': True, 'got': 'no register for output %s' % pn, 'expected': key, 'verilog': text[:2500]}); continue
@@ -210,11 +224,12 @@ def program_item(kind, name, meth, timeout_s=20, refused_expected=False, **kw):
             v = smt.prove(hy, g, mode='int', timeout_s=timeout_s)
         d = R(cl, v.status, backend=v.backend, seconds=round(v.seconds, 4), reason=v.reason, model=v.model if v.status == 'refuted' else None)
         if v.status == 'refuted':
-            d['replay'] = _replay(kind, name, meth, m, v.model, what, vnext, vouts, topname, text, sh)
+            d['replay'] = _replay(kind, name, meth, m, v.model, what, vnext, vouts, topname, text, sh, alias)
     return out
 
 
-def _replay(kind, name, meth, m, model, what, vnext, vouts, topname, text, sh):
+def _replay(kind, name, meth, m, model, what, vnext, vouts, topname, text, sh, alias=None):
+    alias = alias or {}
     """the REAL method on the model's state and inputs vs the Verilog terms evaluated on the same model"""
     info = {'model': {k: v for k, v in model.items() if isinstance(v, int)}}
     if what is None:
@@ -245,7 +260,7 @@ def _replay(kind, name, meth, m, model, what, vnext, vouts, topname, text, sh):
                 if getValidVerilogName(p.name) == what[1]: pw = p.wire
             if m2 == 'clock':
                 got_py = pw.next if any(pw is x for x in py4hw.Wire.prepared) else pw.value
-                vt = vnext['%s.%s' % (topname, what[1])]
+                vt = vnext['%s.%s' % (topname, alias.get(what[1], what[1]))]
             else:
                 got_py = pw.value; vt = vouts[what[1]]
         py4hw.Wire.prepared = []
